@@ -460,6 +460,13 @@ def rule_scope(ctx, rep, rid="R-C02-scope"):
                     r.justified(inst, "library-wide by design: " + SCOPED_GLOBAL[(short, fl["name"])], where)
                 elif resets:
                     r.ok(inst, where, "filled in %s, reset in %s" % (muts, resets))
+                    # ... and on every way: below every kind of library element, the method that fills the table is reached only through an
+                    # override that resets it - otherwise what one element declares (the globals of a configuration) is still in the table
+                    # when the next element is visited, and the verdict depends on the order of the elements
+                    leak = scope_leaks(ctx, aid, [m for m in muts if m.startswith("visit_")], [m for m in resets if m.startswith("visit_")])
+                    for top, path in leak:
+                        r.finding("%s|not reset after %s" % (inst, top), where, "the table is filled below a %s (%s) but no override on that way resets it: its entries are still there "
+                                  "when the next library element is visited" % (top.replace("visit_", ""), " -> ".join(path)))
                 else:
                     r.finding(inst, where, "name table is filled in %s and never cleared: entries of one scope (POU / resource / configuration) leak into the next" % muts)
             else:
@@ -478,6 +485,53 @@ def rule_scope(ctx, rep, rid="R-C02-scope"):
                         r.ok(inst2, w2, "only reset to None")
                     else:
                         r.finding(inst2, w2, "the context `%s` is set in %s and not reset to None on every path to its return: it leaks into the next node" % (fl["name"], m))
+
+
+def scope_leaks(ctx, aid, fillers, resetters):
+    """[(top-level visit method, path)] for the kinds of library element below which a filling override of visitor `aid` is reached without
+    passing an override that resets"""
+    from vlib.traversal import Traversal
+    if not fillers or not resetters:
+        return []
+    T = Traversal(ctx, "visit")
+    ov = {}
+    for st, ms in T.impls(("ironplc_analyzer",)).items():
+        if st.split("<")[0] == aid:
+            ov = ms
+    if not ov:
+        return []
+    le = ctx.facts.adts.get("ironplc_dsl::common::LibraryElementKind")
+    tops = []
+    for v in (le or {}).get("variants", []):
+        for fl in v["fields"]:
+            ty = fl["ty"]
+            if ty in ctx.facts.adts:
+                tops.append("visit_" + _snake(ty.split("::")[-1]))
+    out = []
+    for top in sorted(set(tops)):
+        if top in resetters:
+            continue
+        seen, stack, hit = set(), [(("v", top), (top,))], None
+        while stack and hit is None:
+            n, path = stack.pop()
+            if n in seen:
+                continue
+            seen.add(n)
+            if n[0] == "v" and n[1] in resetters:
+                continue
+            if n[0] == "v" and n[1] in fillers:
+                hit = path
+                break
+            for m in T.succ(n, ov):
+                stack.append((m, path + ((m[1],) if m[0] == "v" else ())))
+        if hit is not None:
+            out.append((top, list(hit)[:6]))
+    return out
+
+
+def _snake(name):
+    from vlib.traversal import snake
+    return snake(name)
 
 
 def ctx_reset_on_all_paths(b, aid, field, ty, neutral):
